@@ -32,6 +32,7 @@ const (
 type c05Op struct {
 	kind     int
 	onView   bool
+	deep     bool // root view only: address the key through its full path {1,key}, i.e. the same entry as the realm view
 	key      byte
 	val      byte
 	inv, res int
@@ -83,7 +84,7 @@ func c05SortedKeys(m map[string]byte, prefix string, strip int) []string {
 // apply performs the action on the model and reports whether the observed result is explained.
 func (a *c05Action) apply(m map[string]byte) bool {
 	o := a.op
-	full := c05Full(o.onView, o.key)
+	full := c05Full(o.onView || o.deep, o.key)
 	switch o.kind {
 	case c05Get:
 		v, ok := m[full]
@@ -131,7 +132,7 @@ func (a *c05Action) apply(m map[string]byte) bool {
 		if a.piece == 0 {
 			m[full] = o.val
 		} else {
-			delete(m, c05Full(o.onView, 3-o.key))
+			delete(m, c05Full(o.onView || o.deep, 3-o.key))
 		}
 	}
 
@@ -197,6 +198,9 @@ func c05Linearizable(acts []*c05Action, m map[string]byte) bool {
 func c05Run(s kvstore.KVStore, o *c05Op) {
 	o.inv = verifrt.Stamp()
 	k := []byte{o.key}
+	if o.deep {
+		k = []byte{1, o.key}
+	}
 	switch o.kind {
 	case c05Get:
 		v, err := s.Get(k)
@@ -230,7 +234,11 @@ func c05Run(s kvstore.KVStore, o *c05Op) {
 	case c05Batch:
 		b, _ := s.Batched()
 		b.Set(k, []byte{o.val})
-		b.Delete([]byte{3 - o.key})
+		if o.deep {
+			b.Delete([]byte{1, 3 - o.key})
+		} else {
+			b.Delete([]byte{3 - o.key})
+		}
 		b.Commit()
 	}
 	o.res = verifrt.Stamp()
@@ -355,4 +363,81 @@ func H_C05_snapshot() {
 	acts := []*c05Action{{op: reader}, {op: writes[0]}, {op: writes[1]}}
 	verifrt.Assert(c05Linearizable(acts, model), "Iterate reported entries that never existed together at one instant")
 	verifrt.Cover("snapshot")
+}
+
+// H_C05_samekey: the root view and the realm view address the SAME entries (the root through the full key), so
+// that operations on one entry really race through two views (the per-view mutex does not serialise them): one
+// operation per goroutine plus final reads.
+//
+//verif:h prop=C05 preempt=2/3 cover=linearized runs=30000000 timeout=300/900 steps=400000
+func H_C05_samekey() {
+	root := NewMapDB()
+	store := kvstore.KVStore(root)
+	view, _ := store.WithRealm(append(make([]byte, 0, 8), 1))
+	model := map[string]byte{}
+	store.Set([]byte{1, 1}, []byte{90})
+	model[string([]byte{1, 1})] = 90
+	kinds := []int{c05Get, c05Has, c05Set, c05Delete, c05DeletePrefix, c05Batch, c05Iterate}
+	a := &c05Op{thread: 0, deep: true, kind: kinds[verifrt.Choose("kindA", 6)], key: byte(1 + verifrt.Choose("keyA", 2)), val: 11}
+	b := &c05Op{thread: 1, onView: true, kind: kinds[verifrt.Choose("kindB", 7)], key: byte(1 + verifrt.Choose("keyB", 2)), val: 21}
+	var wg sync.WaitGroup
+	wg.Add(2)
+	go func() { defer wg.Done(); verifrt.MustFinish(); c05Run(store, a) }()
+	go func() { defer wg.Done(); verifrt.MustFinish(); c05Run(view, b) }()
+	wg.Wait()
+	f1 := &c05Op{thread: 2, onView: true, kind: c05Get, key: 1}
+	f2 := &c05Op{thread: 2, onView: true, kind: c05Get, key: 2}
+	c05Run(view, f1)
+	c05Run(view, f2)
+	acts := []*c05Action{{op: a}, {op: b}, {op: f1}, {op: f2}}
+	if a.kind == c05Batch {
+		acts = append(acts, &c05Action{op: a, piece: 1})
+	}
+	if b.kind == c05Batch {
+		acts = append(acts, &c05Action{op: b, piece: 1})
+	}
+	verifrt.Assert(c05Linearizable(acts, model), "no linearization explains two operations on the same entries through two views")
+	verifrt.Cover("linearized")
+}
+
+// H_C05_prefix: DeletePrefix / Clear through one view against TWO writes through the other (a fresh key, then an
+// existing one): the final contents must be those of some linearization (DeletePrefix is atomic).
+//
+//verif:h prop=C05 preempt=2/3 cover=linearized runs=30000000 timeout=300/900 steps=400000
+func H_C05_prefix() {
+	root := NewMapDB()
+	store := kvstore.KVStore(root)
+	view, _ := store.WithRealm(append(make([]byte, 0, 8), 1))
+	model := map[string]byte{}
+	store.Set([]byte{1, 2}, []byte{90})
+	model[string([]byte{1, 2})] = 90
+	del := &c05Op{thread: 0, kind: c05DeletePrefix, key: 1}
+	switch verifrt.Choose("how", 3) {
+	case 1:
+		del.kind = c05Clear
+	case 2:
+		del.onView, del.kind = true, c05Clear
+	}
+	w1 := &c05Op{thread: 1, onView: true, kind: c05Set, key: 1, val: 21}
+	w2 := &c05Op{thread: 1, onView: true, kind: c05Set, key: 2, val: 22}
+	var wg sync.WaitGroup
+	wg.Add(2)
+	go func() {
+		defer wg.Done()
+		verifrt.MustFinish()
+		if del.onView {
+			c05Run(view, del)
+		} else {
+			c05Run(store, del)
+		}
+	}()
+	go func() { defer wg.Done(); verifrt.MustFinish(); c05Run(view, w1); c05Run(view, w2) }()
+	wg.Wait()
+	f1 := &c05Op{thread: 2, onView: true, kind: c05Get, key: 1}
+	f2 := &c05Op{thread: 2, onView: true, kind: c05Get, key: 2}
+	c05Run(view, f1)
+	c05Run(view, f2)
+	acts := []*c05Action{{op: del}, {op: w1}, {op: w2}, {op: f1}, {op: f2}}
+	verifrt.Assert(c05Linearizable(acts, model), "DeletePrefix / Clear racing with two writes through another view left contents that no linearization explains")
+	verifrt.Cover("linearized")
 }
